@@ -36,8 +36,14 @@ pub struct Case {
     pub attempts: Vec<Attempt>,
     /// a second schema for the failing re-DEFINE (same name, different fields)
     pub redefine: Option<TypeDef>,
+    /// clean restart right after the rejected re-DEFINE (before any event is stored): the schema store is reloaded and
+    /// the accepted schema must still be the one in force
+    #[serde(default)]
+    pub restart_after_redefine: bool,
     pub flush_at_end: bool,
 }
+
+pub static HUGE_FLOAT_TIME_EXCLUDED: std::sync::atomic::AtomicBool = std::sync::atomic::AtomicBool::new(false);
 
 fn weird_values() -> Vec<Value> {
     vec![
@@ -139,7 +145,8 @@ fn ref_type_ok(f: &FieldDef, v: &Value) -> Tri {
                     // more than 19 digits is beyond nanoseconds: out of range
                     if u.to_string().len() <= 19 { Tri::Either } else { Tri::False }
                 } else {
-                    Tri::Either
+                    // a float beyond 1e19 is beyond the nanosecond range of every documented unit: an out-of-range time
+                    if n.as_f64().map(|x| x.abs() >= 1e19).unwrap_or(false) { Tri::False } else { Tri::Either }
                 }
             }
             _ => Tri::False,
@@ -200,9 +207,9 @@ fn case_strategy(tier: Tier, brace_ok: bool) -> BoxedStrategy<Case> {
                     t
                 })
             });
-            (Just(cfg), Just(td), prop::collection::vec(attempt, 10..=tier.pick(60, 120)), redefine, Just(flush_at_end))
+            (Just(cfg), Just(td), prop::collection::vec(attempt, 10..=tier.pick(60, 120)), redefine, Just(flush_at_end), any::<bool>())
         })
-        .prop_map(|(cfg, td, attempts, redefine, flush_at_end)| Case { cfg, td, attempts, redefine, flush_at_end })
+        .prop_map(|(cfg, td, attempts, redefine, flush_at_end, restart_after_redefine)| Case { cfg, td, attempts, redefine, flush_at_end, restart_after_redefine })
         .boxed()
 }
 
@@ -240,6 +247,12 @@ fn run_case(c: &Case, rep: &mut CaseReport) -> Verdict {
         };
         if r.ok() {
             return Verdict::fail("payload-of-rejected-schema-accepted", json!({"cmd": cmd, "log": w.db.log}));
+        }
+        if c.restart_after_redefine {
+            if let Err(e) = w.apply(&Op::Restart) {
+                return problem_verdict(e, &mut w, rep);
+            }
+            rep.label("define:restart-after-failed-redefine");
         }
     }
     let mut must_present: BTreeSet<i64> = BTreeSet::new();
@@ -305,6 +318,15 @@ fn run_case(c: &Case, rep: &mut CaseReport) -> Verdict {
                     expect_extra_reject = true;
                     mutated = true;
                 }
+            }
+        }
+        // open finding: a huge float in a time field is accepted (stored as i64::MAX seconds) and the next flush then walks
+        // every hour up to it and never returns; such payloads are not sent while the finding is open
+        if HUGE_FLOAT_TIME_EXCLUDED.load(std::sync::atomic::Ordering::Relaxed) {
+            let huge = c.td.fields.iter().any(|f| matches!(f.ty, FT::Datetime | FT::Date) && payload.get(&f.name).and_then(|v| v.as_f64()).map(|x| x.abs() >= 1e19 && payload[&f.name].is_f64()).unwrap_or(false));
+            if huge {
+                rep.excluded_known += 1;
+                continue;
             }
         }
         let mut verdict = ref_validate(&c.td, &payload);
@@ -403,6 +425,7 @@ pub fn run(ctx: &Ctx) -> i32 {
     );
     report.assumptions = vec!["EITHER: integer number in a float field, N.0 in an integer field, numeric strings / negative or float epochs in time fields, date string in a datetime field and vice versa".into()];
     replay_known(ctx, &stats, &mut report, &replay);
+    HUGE_FLOAT_TIME_EXCLUDED.store(ctx.open("data.float_time_out_of_range"), std::sync::atomic::Ordering::Relaxed);
     replay_regressions(ctx, &stats, &mut report, &replay);
     let cases = ctx.tier.pick(96, 1500);
     let tier = ctx.tier;
